@@ -8,7 +8,7 @@ from ..cfg import NORMAL, Node
 from ..core import Ctx
 from ..flow import ALL, find_path, names_in
 from ..model import AnalysisError, FunctionInfo, dotted, norm_text
-from .common import EnumVal, eval3, edge_target, kwarg, reachable_from, scenario_walk, str_consts
+from .common import EnumVal, eval3, walk_all, facts_at, judged_in_callers, edge_target, kwarg, reachable_from, scenario_walk, str_consts
 
 EXPLANATION = (
     "Static analysis of the append path: (R1) writer/validator agreement - the schema-field keys CONSUMED where they decide "
@@ -22,7 +22,8 @@ EXPLANATION = (
     ' Also: every call of the validator reaches the signature comparison (no memo); the file-level validator compares full Arrow schemas.'
     " R1 also evaluates the file-level format guard under the scenarios file_format = FileFormat.PARQUET and 'parquet' (the footer comparison must be reached) and rejects a signature returned as a dict (order-insensitive)."
     ' (R6) bounds written by an accepted append are lossless (C13.R4); (R7) create_table / load_table keep no handle registry and return the Table constructed in the call.'
-    ' (R8) pre-built files must exist at append and at commit time; (R9) the record validator raises for unknown fields and for missing / None required fields.')
+    ' (R8) pre-built files must exist at append and at commit time; (R9) the record validator raises for unknown fields and for missing / None required fields.'
+    " (R12) a value the declared type cannot represent is rejected: the strict validator raises for a float with a fractional part in an int / long / date / time / timestamp field (pyarrow's from_pylist would truncate it), decided by scenario evaluation of the validator's branches; every from_pylist / write_records of write_data_file runs after that validator for a non-empty batch [D18, fixed].")
 NOT_DECIDED = ("value-level round trip through Arrow/Parquet for every type and value class; 'mis-filter' in general; what "
                "pyarrow accepts for a declared type")
 
@@ -49,6 +50,7 @@ def check(ctx: Ctx) -> None:
     handles_fresh(ctx)
     appended_files_must_exist(ctx)
     strict_validation_rejects(ctx)
+    inexact_values_rejected(ctx)
     from .c04 import r1 as c04_r1
     ctx.shared(c04_r1, "C04.R1", "C11.R10", "a conflicting pointer write stays a conflict (it is not re-issued against a newer ETag)")
     # "no accepted append can make later scans fail": the range reader is sized by the object's real length, not by the size an
@@ -122,15 +124,25 @@ def strict_validation_rejects(ctx: Ctx, rid: str = "C11.R9") -> None:
         t = edge_target(g, b, "true" if outcome else "false")
         return t is not None and find_path(g, t, stops, avoid=raises, labels=NORMAL | {"back"}) is None
 
+    # the variables that hold ONE record: targets of loops / comprehensions over the records parameter
+    rparam = next((p_.name for p_ in f.params if p_.name != "self"), "records")
+    record_vars: Set[str] = set()
+    for x in walk_all(ctx, f):
+        it, tg = (x.iter, x.target) if isinstance(x, (ast.For, ast.comprehension)) else (None, None)
+        if it is not None and rparam in names_in(it):
+            record_vars |= {y.id for y in ast.walk(tg) if isinstance(y, ast.Name)}  # type: ignore[arg-type]
+
     # (a) "the required field is missing or None" -> raise.  Scenario: `<record>.get(<name>)` IS None (`<name> not in <record>` holds).
     def is_get_none(x: ast.AST) -> Optional[bool]:
         if isinstance(x, ast.Compare) and len(x.ops) == 1 and isinstance(x.comparators[0], ast.Constant) and x.comparators[0].value is None \
-                and isinstance(x.left, ast.Call) and isinstance(x.left.func, ast.Attribute) and x.left.func.attr == "get":
+                and isinstance(x.left, ast.Call) and isinstance(x.left.func, ast.Attribute) and x.left.func.attr == "get" \
+                and isinstance(x.left.func.value, ast.Name) and x.left.func.value.id in record_vars:
             if isinstance(x.ops[0], ast.Is):
                 return True
             if isinstance(x.ops[0], ast.IsNot):
                 return False
-        if isinstance(x, ast.Compare) and len(x.ops) == 1 and isinstance(x.ops[0], (ast.NotIn, ast.In)) and isinstance(x.comparators[0], ast.Name):
+        if isinstance(x, ast.Compare) and len(x.ops) == 1 and isinstance(x.ops[0], (ast.NotIn, ast.In)) and isinstance(x.comparators[0], ast.Name) \
+                and x.comparators[0].id in record_vars:
             return isinstance(x.ops[0], ast.NotIn)
         return None
 
@@ -172,6 +184,103 @@ def strict_validation_rejects(ctx: Ctx, rid: str = "C11.R9") -> None:
                    for d in [g.nodes[x] for x in ctx.rd(f).reaching(b.id, b.ast.id) if x != g.entry])]
     ctx.ob(rid, f, "fields outside the schema raise", unk[0] if unk else None, bool(unk) and all(must_raise(b, True) for b in unk),
            "unknown = keys - allowed; non-empty -> ValueError (nothing is silently dropped by the schema projection)")
+
+
+NO_FRACTION_TYPES = {"int", "long", "date", "time", "timestamp"}
+
+
+def inexact_values_rejected(ctx: Ctx, rid: str = "C11.R12") -> None:
+    ctx.rule(rid, "a value the declared type cannot represent is rejected, not altered: pyarrow's Table.from_pylist silently "
+             "TRUNCATES a Python float handed to an integer / temporal column (3.5 -> 3), so the record validator that dominates "
+             "every conversion must raise for a float with a fractional part in a field whose declared type is int / long / date "
+             "/ time / timestamp; every from_pylist of the write path runs after that validator", 3)
+    f = ctx.fn("data_operations.DataFileManager.validate_records_strict")
+    g = ctx.cfg(f)
+    raises = [n.id for n in g.nodes if n.kind == "raise"]
+    stops = [g.exit] + [x.id for x in g.nodes if x.kind in ("loop", "loop_head", "return")]
+
+    def scenario(x: ast.AST) -> Optional[bool]:
+        # the value is a Python float with a fractional part (not a bool, not an int)
+        if isinstance(x, ast.Call) and isinstance(x.func, ast.Name) and x.func.id == "isinstance" and len(x.args) == 2:
+            names = {(dotted(t) or "").split(".")[-1] for t in (x.args[1].elts if isinstance(x.args[1], ast.Tuple) else [x.args[1]])}
+            if "float" in names:
+                return True
+            if names and names <= {"bool", "int", "str", "bytes"}:
+                return False
+            return None
+        if isinstance(x, ast.Call) and isinstance(x.func, ast.Attribute) and x.func.attr == "is_integer" and not x.args:
+            return False
+        if isinstance(x, ast.Compare) and len(x.ops) == 1 and isinstance(x.ops[0], (ast.Eq, ast.NotEq)):
+            # value == int(value) / value != int(value) / value % 1 == 0
+            l, r = x.left, x.comparators[0]
+            for a, b in ((l, r), (r, l)):
+                if isinstance(b, ast.Call) and isinstance(b.func, ast.Name) and b.func.id in ("int", "round", "floor", "trunc") \
+                        and b.args and norm_text(b.args[0]) == norm_text(a):
+                    return isinstance(x.ops[0], ast.NotEq)
+                if isinstance(a, ast.BinOp) and isinstance(a.op, ast.Mod) and isinstance(a.right, ast.Constant) and a.right.value == 1 \
+                        and isinstance(b, ast.Constant) and b.value == 0:
+                    return isinstance(x.ops[0], ast.NotEq)
+        return None
+
+    judged = []
+    for b in [x for x in g.nodes if x.kind == "branch" and x.id in g.reachable() and x.ast is not None]:
+        if not any(isinstance(y, ast.Call) and isinstance(y.func, ast.Name) and y.func.id == "isinstance" and len(y.args) == 2
+                   and "float" in norm_text(y.args[1]) for y in ast.walk(b.ast)):
+            # the float test may sit in an earlier branch of the same chain: this branch then carries the fractional-part test
+            if not (scenario(b.ast) is not None and any(pol == "true" and scenario(e) is True for pol, e, _a in facts_at(ctx, f, b))):
+                continue
+        v = eval3(b.ast, scenario)
+        if v is None:
+            continue
+        t = edge_target(g, b, "true" if v else "false")
+        if t is None:
+            continue
+        # the scenario's side either raises on every path, or goes on to the next test of the chain (judged in turn)
+        w = find_path(g, t, stops, avoid=raises, labels=NORMAL | {"back"})
+        nxt = [x for x in g.nodes if x.kind == "branch" and x.id != b.id and w is not None and x.id in w and scenario(x.ast) is not None]
+        judged.append((b, w is None or bool(nxt)))
+    must = [b for b, _ok in judged]
+    closing = [b for b, _ok in judged if find_path(g, edge_target(g, b, "true" if eval3(b.ast, scenario) else "false") or g.exit, stops,
+                                                   avoid=raises, labels=NORMAL | {"back"}) is None]
+    ctx.ob(rid, f, "a float with a fractional part raises", must[0] if must else None, bool(closing) and all(ok for _b, ok in judged),
+           "under the scenario `isinstance(value, float) and not value.is_integer()` every path of the validator raises" if closing else
+           "the validator has no test that rejects a fractional float: pa.Table.from_pylist stores 3.5 in a long column as 3 "
+           "(repro: /verif/repro/repro_inexact_values.py) [D18]")
+    # which declared types the test covers: the constants the field-type membership test of the validator names
+    covered: Set[str] = set()
+    for x in walk_all(ctx, f):
+        if isinstance(x, ast.Compare) and len(x.ops) == 1 and isinstance(x.ops[0], (ast.In, ast.NotIn, ast.Eq, ast.NotEq)):
+            cs = str_consts(ctx, f, x.comparators[0])
+            if cs & NO_FRACTION_TYPES:
+                covered |= cs
+    miss = sorted(NO_FRACTION_TYPES - covered)
+    ctx.ob(rid, f, "the test covers every declared type without a fractional part", None, not miss,
+           f"declared types tested: {sorted(covered & NO_FRACTION_TYPES)}" + (f"; not covered: {miss} - a fractional float in such a "
+                                                                            "column is stored truncated" if miss else ""), text="types")
+    # every from_pylist of the write path is reached only after the validator
+    wd = ctx.fn("data_operations.DataFileManager.write_data_file")
+    wg = ctx.cfg(wd)
+    val = [n for n in wg.calls() if any(t.name == "validate_records_strict" for t in ctx.eff.callees(wd, n))]
+    conv = [n for n in wg.calls() if isinstance(n.ast, ast.Call) and (dotted(n.ast.func) or "").endswith("from_pylist")]
+    conv += [n for n in wg.calls() if any(t.name == "write_records" for t in ctx.eff.callees(wd, n))]
+    if not conv:
+        raise AnalysisError("write_data_file no longer converts records (from_pylist / write_records vanished)")
+    # `if records: validate(...)` ... `if records: convert(...)`: the only way round the validator is the "no records" edge of a
+    # test of the (never re-bound) records parameter - an empty batch has nothing to convert
+    rec = next((norm_text(v_.ast.args[0]) for v_ in val if isinstance(v_.ast, ast.Call) and v_.ast.args), None)
+    rebound = rec is None or any(d != wg.entry for n_ in wg.nodes for d in ctx.rd(wd).reaching(n_.id, rec)) if rec else True
+    empty_edges = {(b.id, d) for b in wg.nodes if b.kind == "branch" and isinstance(b.ast, ast.Name) and b.ast.id == rec and not rebound
+                   for d, l in wg.succ[b.id] if l == "false"}
+    for c in conv:
+        w = find_path(wg, wg.entry, [c.id], avoid=[v_.id for v_ in val], labels=NORMAL,
+                      edge_ok=lambda s_, d_, l_: (s_, d_) not in empty_edges) if val else [wg.entry]
+        ctx.ob(rid, wd, "conversion runs after the strict validator", c, bool(val) and w is None,
+               "no path reaches the conversion of a non-empty batch without passing validate_records_strict",
+               witness=ctx.path_witness(wd, w) if val else None)
+    for caller, n in ctx.eff.call_sites.get(ctx.fn("data_operations.DataFileWriter.write_records").qname, []):
+        if caller.qname != wd.qname and not judged_in_callers(ctx, caller):
+            ctx.ob(rid, caller, "records reach the writer only through write_data_file", n, False,
+                   "DataFileWriter.write_records converts with from_pylist without the strict validator")
 
 
 def handles_fresh(ctx: Ctx, rid: str = "C11.R7") -> None:
